@@ -258,4 +258,5 @@ _PENDING = "check not built yet in this round (planned: Lean model + theorems + 
 # entries with "unclaimed": True are runnable (./check Cxx) but not yet claimed in MANIFEST.json
 NOT_APPLICABLE = {p: _PENDING for p in ["C%02d" % i for i in range(1, 21)] if p not in PROPS or PROPS[p].get("unclaimed")}
 HOOK_COMMITS = ["62f4a35bbfb762f168515cd7c5338c1c6cff78cc", "8ba54fa04b0057593bc8f1f66ad8aa6e22db7412",
-                "3d3870806691e3d1380ce61acaa03447408c434f", "ec37b7d789aa05b65a1eb90bfca12bce64489004"]
+                "3d3870806691e3d1380ce61acaa03447408c434f", "ec37b7d789aa05b65a1eb90bfca12bce64489004",
+                "7108ab156ac32728b9b534ee8b8813441695f9bf"]
